@@ -98,9 +98,29 @@ class LockRegions:
             return None
         k = LOCK_CALLS.get(ckey(fn))
         if not k:
-            return None
+            return self._acq_through_helper(bb, term)
         t = self.bp.arg_term(bb, 0)
         return (self.lock_id_fn(self.prog, self.body, t, fn), k)
+
+    _helper_stack = []
+
+    def _acq_through_helper(self, bb, term):
+        """a crate-local helper that returns a guard (`fn lock_x(&self) -> MutexGuard<..>`)
+        acquires whatever it still holds when it returns"""
+        if term["dest"]["p"] or not is_guardish(self.body.local_ty(term["dest"]["l"])):
+            return None
+        from .program import Site
+        cb = self.prog.callee_body(Site(self.body, bb, term))
+        if cb is None or cb.path in LockRegions._helper_stack or len(LockRegions._helper_stack) > 4:
+            return None
+        LockRegions._helper_stack.append(cb.path)
+        try:
+            held = LockRegions(self.prog, cb, self.lock_id_fn).held_at_return()
+        finally:
+            LockRegions._helper_stack.pop()
+        if len(held) == 1:
+            return (next(iter(held)), "lock")
+        return None
 
     def _stmt(self, world, s):
         flags, holders = world
